@@ -35,9 +35,11 @@ LEVEL_NOTE = ("numpy primitives and the BondList constructor are modelled, not v
               "generated C / binary hash and the correspondence stream")
 TECHNIQUE = "Lean 4 proof (induction over lists / fuel-indexed DFS invariant) + correspondence + per-atom / union-find oracle"
 
-CHAINS = ["A", "B", "C", "AA", ""]
-INS = ["", "A", "B"]
-NAMES = ["ALA", "GLY", "HOH", "LIG"]
+# token tables (append only: corpus / witnesses refer to indices).  Strings of every length up to the annotation
+# dtype widths (chain_id U4, ins_code U1, res_name U5), incl. values that differ only in the last characters.
+CHAINS = ["A", "B", "C", "AA", "", "AAAA", "AAAB", "AAA", "AB"]
+INS = ["", "A", "B", "a"]
+NAMES = ["ALA", "GLY", "HOH", "LIG", "A1LU6", "A1LU7", "A1LU", "A1L", "DA", "A", "GLYX", "GLYY"]
 FNS = ["sum", "max", "len", "first", "minmax"]
 XFNS = ["mean0", "sum0", "half", "anypos", "minmaxmean"]     # result dtype differs from the data dtype
 N_BOND_TYPES = 10                                            # BondType.ANY .. BondType.AROMATIC (incl. COORDINATION = 8)
@@ -225,43 +227,60 @@ def gen_lean():
 
 # ---------------------------------------------------------------- generators
 def _gen_atoms(rng):
-    """List of [chain, res_id, ins, name] tokens, built residue by residue."""
+    """List of [chain, res_id, ins, name, hetero] tokens, built residue by residue."""
     r = rng.random()
     if r < 0.06:
         return []
     atoms = []
     n_chains = rng.choice([1, 1, 2, 2, 3, 4])
     chain_tok = rng.randrange(len(CHAINS))
+    similar = [(4, 5), (6, 4), (7, 6), (10, 11), (1, 10), (0, 9)]     # names differing only in a late character
     for _ in range(n_chains):
         if rng.random() < 0.75:
-            chain_tok = rng.randrange(len(CHAINS))       # may repeat the previous chain id
+            # may repeat the previous chain id; sometimes an id differing only in the last character
+            chain_tok = rng.choice([5, 6, 7, 3]) if rng.random() < 0.25 else rng.randrange(len(CHAINS))
         res_id = rng.choice([1, 1, -3, 10, 0])
         ins = 0
         name = rng.randrange(len(NAMES))
+        hetero = 1 if rng.random() < 0.15 else 0
         for _ in range(rng.choice([1, 1, 2, 3, 4, 6])):
             for _ in range(rng.choice([1, 1, 1, 2, 3, 4])):
-                atoms.append([chain_tok, res_id, ins, name])
+                atoms.append([chain_tok, res_id, ins, name, hetero])
             step = rng.random()
-            if step < 0.45:
+            if step < 0.40:
                 res_id += 1
                 ins = 0
-            elif step < 0.55:
+            elif step < 0.50:
                 res_id += rng.choice([2, 5, 100])
-            elif step < 0.65:
+            elif step < 0.60:
                 ins = (ins + 1) % len(INS)               # same id, new insertion code
-            elif step < 0.75:
+            elif step < 0.68:
                 name = (name + 1 + rng.randrange(len(NAMES) - 1)) % len(NAMES)   # same id, other name
+            elif step < 0.75:
+                a, b = rng.choice(similar)               # same id, name differing only in the 4th/5th character
+                name = b if name == a else a
             elif step < 0.85:
                 res_id -= rng.choice([1, 2, 7])          # decrement: a chain start without chain id change
+                hetero = rng.choice([0, 1, hetero])
             elif step < 0.92:
                 pass                                     # identical key: the two residues merge
             else:
                 res_id += 1
                 name = rng.randrange(len(NAMES))
+        if rng.random() < 0.35:
+            # waters / ligands under the same chain id whose numbering restarts (lower res_id): per the property a
+            # res_id decrease starts a new chain whatever the hetero flag says
+            hres = rng.choice([1, res_id - 1, res_id - 5, 0])
+            hname = rng.choice([2, 3, 4, 5])
+            for _ in range(rng.choice([1, 2, 3])):
+                for _ in range(rng.choice([1, 1, 3])):
+                    atoms.append([chain_tok, hres, 0, hname, 1])
+                hres += rng.choice([1, 1, 2, -1])
     if rng.random() < 0.25:                              # per-atom noise
         for _ in range(rng.randint(1, 3)):
             a = rng.choice(atoms)
-            a[rng.randrange(4)] = rng.choice([0, 1, 2])
+            a[rng.randrange(5)] = rng.choice([0, 1, 2] if rng.random() < 0.7 else [0, 1])
+            a[4] = 1 if a[4] else 0
     return [list(a) for a in atoms]
 
 
@@ -416,6 +435,10 @@ def corpus():
             {"fn": "minmaxmean", "kind": "i", "cols": 0, "data": [1, 2, 3, 4, 6]},
             {"fn": "half", "kind": "i", "cols": 3, "data": list(range(15))}]),
         _mk([], applyx=[{"fn": "mean0", "kind": "i", "cols": 2, "data": []}]),
+        # residue names / chain ids that differ only in the 4th/5th (4th) character
+        _mk([[5, 1, 0, 4, 1], [5, 1, 0, 5, 1], [6, 1, 0, 5, 1], [6, 1, 0, 6, 1], [6, 1, 0, 7, 1]], idx=[0, 1, 2, 3, 4]),
+        # waters whose numbering restarts inside one chain id: a new chain starts at the res_id decrease
+        _mk([[0, 10, 0, 0, 0], [0, 11, 0, 1, 0], [0, 1, 0, 2, 1], [0, 2, 0, 2, 1], [0, 1, 0, 3, 1]], idx=[0, 2, 4]),
     ]
     g = [
         {"kind": "graph", "n": 0, "bonds": [], "roots": [], "bad_roots": [0, -1]},
@@ -440,6 +463,7 @@ def _atom_array(atoms):
     a.res_id = np.array([x[1] for x in atoms], dtype=int)
     a.ins_code = np.array([INS[x[2]] for x in atoms], dtype="U1")
     a.res_name = np.array([NAMES[x[3]] for x in atoms], dtype="U5")
+    a.hetero = np.array([bool(x[4]) if len(x) > 4 else False for x in atoms], dtype=bool)
     a.set_annotation("uid", np.arange(len(atoms), dtype=int))
     return a
 
@@ -704,6 +728,10 @@ def _seg_oracle(case):
                 bad(f"{nm}_iter/empty-segment", f"empty segment in {uids}")
             elif uids != members:
                 bad(f"{nm}_iter/segments", f"segments {uids} != per-atom segments {members}")
+            elif any([str(x) for x in sg.res_name] != [NAMES[atoms[u][3]] for u in us]
+                     or [str(x) for x in sg.chain_id] != [CHAINS[atoms[u][0]] for u in us]
+                     or [str(x) for x in sg.ins_code] != [INS[atoms[u][2]] for u in us] for sg, us in zip(got, uids)):
+                bad(f"{nm}_iter/annotation-strings", "annotation strings of an iterated segment differ from the array's")
         # index views
         idx = case["idx"]
         if True:
